@@ -26,6 +26,12 @@ func storesTo(fn *ssa.Function, fieldID string) []*ssa.Store {
 func checkC03(c *Ctx) {
 	// the embedded signature identifies its signer and verifies: the emitter rules of C05
 	checkC05(c)
+	// re-parsing the output verifies against no certificate that did not sign it: the
+	// image verifier accepts only behind the signer-identity and signature facts (as in C02)
+	if vf := c.Fn("A", "authenticode.(*PECOFFBinary).Verify"); vf != nil {
+		c.accept().Require("A", vf, pkcs7Facts)
+	}
+	c.rulePadFresh("M7.padzero")
 	// the signatures read back from an image are distinct objects
 	c.ruleLoopAlias("M6.distinct", func(f *ssa.Function) bool {
 		return strings.HasPrefix(name(f), "authenticode.") || strings.HasPrefix(name(f), "(*authenticode.")
@@ -533,4 +539,80 @@ func successPaths(fn *ssa.Function, max int) (paths [][]*ssa.BasicBlock, complet
 		walk(fn.Blocks[0])
 	}
 	return paths, complete
+}
+
+// rulePadFresh: the zero padding comes from PaddingBytes. If that function
+// hands out package-level memory instead of fresh bytes, nothing in the
+// library may ever write into what it returns — a single write (a Read into
+// the padding to skip alignment bytes) makes every later "zero padding"
+// carry those bytes.
+func (c *Ctx) rulePadFresh(rule string) {
+	fn := c.Fn(rule, "authenticode.PaddingBytes")
+	if fn == nil {
+		return
+	}
+	sharedAt := ""
+	for _, r := range ir.Returns(fn) {
+		if len(r.Results) == 0 {
+			continue
+		}
+		for v := range c.sliceOf(r.Results[0]) {
+			if sl, ok := v.(*ssa.Slice); ok {
+				if g, isG := ir.RootOf(sl.X).(*ssa.Global); isG && g.Pkg != nil && strings.HasPrefix(g.Pkg.Pkg.Path(), M) {
+					sharedAt = c.IPos(r) + " (" + g.Name() + ")"
+				}
+			}
+		}
+	}
+	if sharedAt == "" {
+		c.R.Okf(rule, name(fn), "fresh-zero-bytes", c.Pos(fn.Pos()), "the padding handed out is freshly allocated")
+		return
+	}
+	// every library use of the result as a destination
+	bad := ""
+	for _, g := range c.P.LibFunctions() {
+		instrsOf(g, func(i ssa.Instruction) {
+			call, ok := i.(*ssa.Call)
+			if !ok || ir.Callee(call) != fn || call.Referrers() == nil {
+				return
+			}
+			for _, rf := range *call.Referrers() {
+				ex, ok := rf.(*ssa.Extract)
+				if !ok || ex.Index != 0 || ex.Referrers() == nil {
+					continue
+				}
+				for _, use := range *ex.Referrers() {
+					uc, isC := use.(ssa.CallInstruction)
+					if !isC {
+						if st, isSt := use.(*ssa.Store); isSt && st.Val == ssa.Value(ex) {
+							continue
+						}
+						if _, isIA := use.(*ssa.IndexAddr); isIA {
+							bad = c.IPos(use)
+						}
+						continue
+					}
+					id := ir.CallID(uc)
+					args := ir.CallArgs(uc)
+					written := false
+					for _, k := range mutatingCalls[id] {
+						if k < len(args) && args[k] == ssa.Value(ex) {
+							written = true
+						}
+					}
+					if uc.Common().IsInvoke() && (uc.Common().Method.Name() == "Read" || uc.Common().Method.Name() == "ReadAt") {
+						written = true
+					}
+					if id == "bytes.Reader.Read" || id == "bytes.Buffer.Read" || id == "io.SectionReader.Read" || id == "io.SectionReader.ReadAt" || id == "bytes.Reader.ReadAt" {
+						written = true
+					}
+					if written {
+						bad = c.IPos(use) + " (" + id + ")"
+					}
+				}
+			}
+		})
+	}
+	c.R.Check(bad == "", rule, name(fn), "fresh-zero-bytes", c.Pos(fn.Pos()), "padding handed out from shared memory is never written",
+		"PaddingBytes returns a slice of package-level memory at "+sharedAt+" and its result is written at "+bad+": every later padding carries those bytes instead of zeros")
 }
